@@ -374,6 +374,36 @@ def runApp (v : Variant) (app : App) : Run :=
         { msgs := (iterate r false app.acts).1, appCalls := 1, closeCalls := close.1, iterObtained := true,
           exc := (iterate r false app.acts).2, iterCloseCalls := close.2 }
 
+/-! ## delivery: `call_soon` and the stream's handling of the messages -/
+
+inductive Worker | asyncio | trio
+deriving Repr, DecidableEq
+
+open Extracted.WsgiSites in
+/-- does `call_soon(send, message)` — the function `run_app` sends every message through, from its thread — return only
+    after the send has completed?  *Extracted* from each worker's `TaskGroup.spawn_app`: asyncio `_call_soon` =
+    `run_coroutine_threadsafe(func(*args), self._loop)` followed by `.result()`, trio `trio.from_thread.run`. -/
+def callSoonWaits : Worker → Bool
+  | .asyncio => asyncioCallSoonWaits
+  | .trio => trioCallSoonWaits
+
+/-- the messages the HTTP stream accepts out of those `run_app` issues, when the send of message number `i` suspends iff
+    `susp i` (the transport applies back-pressure: a slow client, a paused transport).  With a waiting `call_soon` a
+    message is issued only after the previous send completed, so every message is accepted, in order.  A `call_soon`
+    that does not wait lets the thread run ahead: while the send of the start message is suspended the stream is still in
+    its REQUEST state (`self.state = ASGIHTTPState.RESPONSE` follows `await self.send(Response(…))` in
+    `HTTPStream.app_send`) and rejects the body messages issued meanwhile (UnexpectedMessageError, raised into a future
+    nobody reads).  `pending` = such a suspended start is outstanding (worst case: it outlasts the application). -/
+def acceptedFrom (waits : Bool) (susp : Nat → Bool) : Nat → Bool → List Msg → List Msg
+  | _, _, [] => []
+  | i, pending, m :: ms =>
+    match m with
+    | .start _ _ => m :: acceptedFrom waits susp (i + 1) (pending || (!waits && susp i)) ms
+    | _ => if pending then acceptedFrom waits susp (i + 1) pending ms else m :: acceptedFrom waits susp (i + 1) pending ms
+
+def accepted (w : Worker) (susp : Nat → Bool) (msgs : List Msg) : List Msg :=
+  acceptedFrom (callSoonWaits w) susp 0 false msgs
+
 /-! ## `handle_http` and `__call__` -/
 
 structure Outcome where
